@@ -68,7 +68,7 @@ def run(case):
             run_script(d["body"])
             return f
 
-        body.__name__ = "F%d" % f
+        body.__name__ = "F%d" % (f % 2)     # distinct functions may share a name: identity, not the name, keys the re-entrancy state
         g = body
         for k in reversed(range(len(d["post"]))):
             def post(f=f, k=k, d=d):
